@@ -195,7 +195,6 @@ func runHarness(ld *Loaded, spec HarnessSpec, tier string, workers int, twin boo
 				for k, n := range i.cs.kinds {
 					res.Forks["yield:"+k] += n
 				}
-				res.States += int64(i.cs.states)
 				res.Transitions += int64(i.cs.transitions)
 				for k, n := range funcs {
 					res.Funcs[k] += n
@@ -634,7 +633,9 @@ func writeEvidence(o checkOpts, ld *Loaded, results []*HarnessResult, violations
 		sat += r.Sat
 		unsat += r.Unsat
 		unknown += r.Unknown
-		states += r.States
+		// distinct scheduling states: decision points first met beyond the replayed
+		// prefix (counted once each) plus the terminal state of every path
+		states += int64(r.Forks["sched"] + r.Forks["map-order"] + r.Paths)
 		transitions += r.Transitions
 		instrs += r.Instrs
 		solverTime += r.SolverTime
